@@ -1,0 +1,232 @@
+//go:build verif
+
+package base
+
+import (
+	"encoding/json"
+	"sort"
+)
+
+// VerifT is a canonical, JSON-serialisable projection of every semantic field of a T.
+type VerifT struct {
+	Tag       int       `json:"tag"`
+	Class     string    `json:"cls"`
+	ValKind   string    `json:"vk"` // str | int64 | float64 | t | other | nil
+	ValStr    string    `json:"vs"`
+	ValT      *VerifT   `json:"vt"`
+	Key       string    `json:"key"`
+	Frame     string    `json:"frame"`
+	Method    string    `json:"meth"`
+	DArgs     []string  `json:"dargs"`
+	HasDef    bool      `json:"hd"`
+	IsBuiltin bool      `json:"bi"`
+	Inferred  bool      `json:"inf"`
+	Asterisk  bool      `json:"ast"`
+	CondRet   bool      `json:"cond"`
+	Destruct  bool      `json:"des"`
+	Capture   bool      `json:"cap"`
+	ReadOnly  bool      `json:"ro"`
+	BlockGiv  bool      `json:"bg"`
+	Static    bool      `json:"st"`
+	Before    string    `json:"bec"`
+	DefFrame  string    `json:"df"`
+	DefClass  string    `json:"dc"`
+	Variants  []*VerifT `json:"vars"`
+	BParams   []*VerifT `json:"bps"`
+	Overloads []*VerifT `json:"ovs"`
+}
+
+func verifProject(t *T, depth int) *VerifT {
+	if t == nil {
+		return nil
+	}
+	v := &VerifT{
+		Tag: t.tType, Class: t.objectClass, Key: t.key, Frame: t.frame, Method: t.method,
+		DArgs: append([]string{}, t.defineArgs...), HasDef: t.hasDefault, IsBuiltin: t.isBuiltin,
+		Inferred: t.isInfferedFromCall, Asterisk: t.IsBuiltinAsterisk, CondRet: t.IsConditionalReturn,
+		Destruct: t.IsDestructive, Capture: t.IsCaptureOwner, ReadOnly: t.isReadOnly,
+		BlockGiv: t.IsBlockGiven, Static: t.IsStatic, Before: t.beforeEvaluateCode,
+		DefFrame: t.DefinedFrame, DefClass: t.DefinedClass,
+		Variants: []*VerifT{}, BParams: []*VerifT{}, Overloads: []*VerifT{},
+	}
+	switch x := t.val.(type) {
+	case nil:
+		v.ValKind = "nil"
+	case string:
+		v.ValKind = "str"
+		v.ValStr = x
+	case int64:
+		v.ValKind = "int64"
+	case float64:
+		v.ValKind = "float64"
+	case *T:
+		v.ValKind = "t"
+		if depth < 64 {
+			v.ValT = verifProject(x, depth+1)
+		}
+	default:
+		v.ValKind = "other"
+	}
+	if depth < 64 {
+		for i := range t.variants {
+			v.Variants = append(v.Variants, verifProject(&t.variants[i], depth+1))
+		}
+		for i := range t.blockParamaters {
+			v.BParams = append(v.BParams, verifProject(&t.blockParamaters[i], depth+1))
+		}
+		for i := range t.Overloads {
+			v.Overloads = append(v.Overloads, verifProject(&t.Overloads[i], depth+1))
+		}
+	}
+	return v
+}
+
+// VerifProject returns the canonical projection of t.
+func (t *T) VerifProject() *VerifT { return verifProject(t, 0) }
+
+// VerifDump returns the canonical projection of t as JSON.
+func (t *T) VerifDump() string {
+	b, _ := json.Marshal(verifProject(t, 0))
+	return string(b)
+}
+
+// VerifFromProjection rebuilds a T from its projection (inverse of VerifProject on the
+// fields the projection keeps).
+func VerifFromProjection(v *VerifT) *T {
+	if v == nil {
+		return nil
+	}
+	t := &T{
+		tType: v.Tag, objectClass: v.Class, key: v.Key, frame: v.Frame, method: v.Method,
+		hasDefault: v.HasDef, isBuiltin: v.IsBuiltin, isInfferedFromCall: v.Inferred,
+		IsBuiltinAsterisk: v.Asterisk, IsConditionalReturn: v.CondRet, IsDestructive: v.Destruct,
+		IsCaptureOwner: v.Capture, isReadOnly: v.ReadOnly, IsBlockGiven: v.BlockGiv,
+		IsStatic: v.Static, beforeEvaluateCode: v.Before, DefinedFrame: v.DefFrame,
+		DefinedClass: v.DefClass,
+	}
+	if len(v.DArgs) > 0 {
+		t.defineArgs = append([]string{}, v.DArgs...)
+	}
+	switch v.ValKind {
+	case "str":
+		t.val = v.ValStr
+	case "int64":
+		t.val = int64(1)
+	case "float64":
+		t.val = float64(1)
+	case "t":
+		t.val = VerifFromProjection(v.ValT)
+	case "other":
+		t.val = 1
+	}
+	for _, x := range v.Variants {
+		t.variants = append(t.variants, *VerifFromProjection(x))
+	}
+	for _, x := range v.BParams {
+		t.blockParamaters = append(t.blockParamaters, *VerifFromProjection(x))
+	}
+	for _, x := range v.Overloads {
+		t.Overloads = append(t.Overloads, *VerifFromProjection(x))
+	}
+	return t
+}
+
+// VerifFrameEntry is one entry of TFrame in canonical form.
+type VerifFrameEntry struct {
+	Frame    string  `json:"frame"`
+	Class    string  `json:"class"`
+	Method   string  `json:"method"`
+	Variable string  `json:"variable"`
+	Private  bool    `json:"private"`
+	Static   bool    `json:"static"`
+	T        *VerifT `json:"t"`
+}
+
+// VerifWorld is a canonical snapshot of the global tables.
+type VerifWorld struct {
+	Frame          []VerifFrameEntry        `json:"tframe"`
+	Inheritance    map[string][]ClassNode   `json:"inheritance"`
+	BuiltinClasses []string                 `json:"builtin_classes"`
+	DefinedClasses []string                 `json:"defined_classes"`
+	Articles       []VerifArticle           `json:"articles"`
+	Documents      map[string]string        `json:"documents"`
+	CallPoints     map[string][]CallPoint   `json:"call_points"`
+	CalleePoints   map[string][]CalleePoint `json:"callee_points"`
+}
+
+type VerifArticle struct {
+	Frame     string  `json:"frame"`
+	Class     string  `json:"class"`
+	MethodT   *VerifT `json:"t"`
+	IsStatic  bool    `json:"static"`
+	IsPrivate bool    `json:"private"`
+	FileName  string  `json:"file"`
+	Row       int     `json:"row"`
+}
+
+// VerifSnapshot captures the global tables; if builtinOnly, only entries whose frame starts
+// with "Builtin" (or the Object.new entry) are included in tframe.
+func VerifSnapshot(builtinOnly bool) *VerifWorld {
+	w := &VerifWorld{
+		Inheritance:  map[string][]ClassNode{},
+		Documents:    map[string]string{},
+		CallPoints:   map[string][]CallPoint{},
+		CalleePoints: map[string][]CalleePoint{},
+	}
+	for k, v := range TFrame {
+		if builtinOnly && !(len(k.frame) >= 7 && k.frame[:7] == "Builtin") {
+			continue
+		}
+		w.Frame = append(w.Frame, VerifFrameEntry{k.frame, k.targetClass, k.targetMethod,
+			k.targetVariable, k.isPrivate, k.isStatic, v.VerifProject()})
+	}
+	sort.Slice(w.Frame, func(i, j int) bool {
+		a, b := w.Frame[i], w.Frame[j]
+		if a.Frame != b.Frame {
+			return a.Frame < b.Frame
+		}
+		if a.Class != b.Class {
+			return a.Class < b.Class
+		}
+		if a.Method != b.Method {
+			return a.Method < b.Method
+		}
+		if a.Variable != b.Variable {
+			return a.Variable < b.Variable
+		}
+		if a.Private != b.Private {
+			return !a.Private
+		}
+		return !a.Static && b.Static
+	})
+	for k, v := range ClassInheritanceMap {
+		key := k.Frame + "|" + k.Class
+		if k.IsInclude {
+			key += "|include"
+		}
+		if k.IsExtend {
+			key += "|extend"
+		}
+		w.Inheritance[key] = append([]ClassNode{}, v...)
+	}
+	w.BuiltinClasses = append([]string{}, BuiltinClasses...)
+	for k := range DefinedClassTable {
+		w.DefinedClasses = append(w.DefinedClasses, k.frame+"|"+k.class)
+	}
+	sort.Strings(w.DefinedClasses)
+	for _, a := range TSignatureArticles {
+		m := a.MethodT
+		w.Articles = append(w.Articles, VerifArticle{a.Frame, a.Class, m.VerifProject(),
+			a.IsStatic, a.IsPrivate, a.FileName, a.Row})
+	}
+	for k, v := range TSignatureDocument {
+		w.Documents[k] = v
+	}
+	for k, v := range MethodCallPoint {
+		w.CallPoints[k] = append([]CallPoint{}, v...)
+	}
+	for k, v := range MethodCalleePoint {
+		w.CalleePoints[k] = append([]CalleePoint{}, v...)
+	}
+	return w
+}
